@@ -138,6 +138,7 @@ type Machine struct {
 	files     map[*value]*fileState
 	syncVC    map[hbKey]vclock
 	mapRaces  map[*mapV]*mapRaceState
+	sliceRaces map[*value]*mapRaceState
 	raceSeen  map[string]bool
 	overrides map[string]value
 	racyScope string
@@ -714,6 +715,7 @@ func (m *Machine) resetPath() {
 	m.files = map[*value]*fileState{}
 	m.syncVC = map[hbKey]vclock{}
 	m.mapRaces = map[*mapV]*mapRaceState{}
+	m.sliceRaces = map[*value]*mapRaceState{}
 	m.raceSeen = map[string]bool{}
 	m.overrides = map[string]value{}
 	m.racyScope = ""
